@@ -32,15 +32,16 @@ Proof.
   destruct (negb (is_nil_t rest)); [intros H; inversion H; right; right; reflexivity|].
   destruct (is_name first || match node_rule first with Some r => r =? r_fpdef G | None => false end); [discriminate|].
   destruct (is_op first star); [discriminate|].
-  match goal with |- match ?c with Some _ => _ | None => _ end = _ -> _ => destruct c end; [discriminate|].
-  intros H; inversion H; left; reflexivity.
+  assert (K: forall c : option (list tree), match c with Some cs => POk (split_params cs []) | None => PErr PAttr end = PErr e -> conv_err e).
+  { intros [cs|]; [discriminate|]. intros H; inversion H; left; reflexivity. }
+  destruct first as [k v p l c|[r| |] cs]; try apply K. intros H; inversion H; right; right; reflexivity.
 Qed.
 
 Lemma convert_node_err r ns e : convert_node G r ns = PErr e -> conv_err e.
 Proof.
   unfold convert_node. destruct (r =? r_suite G).
   - destruct ns as [|c0 [|c1 rest]]; [intros H; inversion H; right; left; reflexivity|discriminate|].
-    destruct (no_text c1 && match rev rest with [] => true | cl :: _ => no_text cl end); [discriminate|].
+    destruct (blank c1 && match rev rest with [] => true | cl :: _ => blank cl end); [discriminate|].
     intros H; inversion H; right; right; reflexivity.
   - destruct (r =? r_funcdef G).
     + assert (GE: forall cs e', regroup_func G cs = PErr e' -> conv_err e').
